@@ -70,6 +70,7 @@ StepBad(o, k) ==
            ELSE (IF [off |-> ev.ret, len |-> ev.n] \in Live(post) /\ FreeT(pre, ev.ret, ev.n)
                    THEN {} ELSE {"AllocRecorded"}))
         \cup (IF Live(pre) \subseteq Live(post) THEN {} ELSE {"LiveKept"})
+   ELSE IF ev.n \notin {e.off : e \in Live(pre)} THEN {}      \* not a free of an allocated offset: outside the statement
    ELSE (IF ev.ret = 0 /\ Live(post) = {e \in Live(pre) : e.off # ev.n} /\ Len(post) = Len(pre) - 1
            THEN {} ELSE {"FreeExact"}))
 
